@@ -5,6 +5,7 @@ import MetapypeModel.Gen.Rules
 import MetapypeModel.Gen.Facts
 import MetapypeModel.Gen.Witness
 import MetapypeModel.Gen.Findings
+import MetapypeModel.Props.C01
 /-
   C10 — the rule table is closed and consistent with the known element names.
   The quantifier is the finite shipped table, so every statement is `decide`
@@ -35,6 +36,24 @@ def C10_children_known_full : Prop :=
 theorem C10_children_known_modulo_findings :
     ∀ r ∈ tables.reachable, ∀ c ∈ r.children.names,
       c ∈ tables.knownElements ∨ (r.name, c) ∈ findingsC10 := by decide +kernel
+
+/-- whatever single-node validation allows lists only names the rule mentions: an accepted child sequence of a node that is
+    not `metadata` contains no name outside the rule's children section -/
+theorem C10_accepted_children_mentioned (s : Spec) (hw : wfTop s = true) (nodeName : String) (hn : nodeName ≠ "metadata")
+    (M : Bool) (xs : List String) (hacc : validateChildren nodeName M s xs = []) : ∀ x ∈ xs, x ∈ s.names :=
+  Lang_names_sub true M s xs ((C01_accept_iff s hw nodeName hn M xs).mp hacc)
+
+/-- … hence, for the shipped table: every child that single-node validation of a known, non-`metadata` element lets pass is
+    itself a known element (so whole-tree validation can go on below it) — up to the recorded findings -/
+theorem C10_single_node_allows_only_known (r : Rule) (hr : r ∈ tables.reachable) (nodeName : String) (hn : nodeName ≠ "metadata")
+    (M : Bool) (xs : List String) (hacc : validateChildren nodeName M r.children xs = []) :
+    ∀ x ∈ xs, x ∈ tables.knownElements ∨ (r.name, x) ∈ findingsC10 := by
+  intro x hx
+  have hrules : r ∈ Gen.rules := by
+    have := List.mem_filter.mp hr
+    exact this.1
+  have hm := C10_accepted_children_mentioned r.children (C01_table_wf r hrules) nodeName hn M xs hacc x hx
+  exact C10_children_known_modulo_findings r hr x hm
 
 /-- for every known element a candidate witness tree is listed … -/
 theorem C10_every_element_has_witness : ∀ e ∈ tables.knownElements, e ∈ witnesses.map (·.1) := by decide +kernel
